@@ -22,7 +22,8 @@
 direct: griffe.load(pkg, allow_inspection=False) vs griffe.load(pkg, force_inspection=True) on the same generated package: member names,
     kinds, shared labels, parameters, base class paths, docstrings, alias final targets at every nesting level, modulo the allowed
     differences encoded in compare_trees(); the bases of every class three ways (static, inspected, cls.__bases__); which statement binds a
-    name next to wildcard imports (static vs imported module).  Anything else must satisfy a known-gap classifier confirmed by the model's
+    name next to wildcard imports (static vs imported module); every third package loaded again on both agents with a passive extension that
+    walks the trees with Extension.generic_visit / generic_inspect from node hooks: neither tree may change.  Anything else must satisfy a known-gap classifier confirmed by the model's
     verdict (F4, F6, F8, F9, F10, F12) or is a VIOLATION.
     corpus/C17: the witnesses of the repaired defects (F1 F2 F3 F5 F7, twin modules, built-in _x modules, wrapped class methods), on which
     the two agents must now agree completely.
@@ -86,7 +87,7 @@ RULE = ("seeded random importable packages (7-11 modules over 3 nesting levels, 
         "(one or two per module, sources with and without __all__, transitive), class-body imports, `import x.y`, self imports, imports of "
         "built-in underscore modules, names re-bound in branches that are not taken (try-import/except fallback, `if sys.version_info`, on "
         "imports, functions, classes, values) and TYPE_CHECKING-import/else-fallback, methods below functools.wraps decorators, __all__, "
-        "optional underscore twin modules, modules named like the stdlib / top-level module they import "
+        "folders without __init__.py inside the regular packages (data files and / or Python files) imported by the package, optional underscore twin modules, modules named like the stdlib / top-level module they import "
         "from, quoted annotations that do not resolve at runtime), loaded statically and dynamically and imported; a zoo of live objects for "
         "every ladder rung and every object constructor; 150+ small packages interleaving definitions and wildcard imports; exhaustive "
         "relative-import grid depth<=4 x level<=5; random docstring line lists; random dotted paths. non-trivial package = has at least one "
@@ -519,6 +520,20 @@ class Gen:
             body.append(f"import {bm}" + (f" as {asn}" if asn else ""))
             self.meta[f"{mod}.{asn or bm}"] = {"form": "builtinimport", "import_stmt": [[bm], [asn] if asn else []]}
             self.ext[mod][asn or bm] = bm
+        if init and rng.random() < 0.25:
+            # a folder of this package WITHOUT __init__.py (data files, plug-ins: an implicit namespace sub-package), imported by the package
+            folder = f"tpl{tag}"
+            base = "/".join(mod.split(".")) + f"/{folder}"
+            variant = rng.choice(["data", "data+py", "py"])
+            if variant != "py":
+                self.files[f"{base}/page.txt"] = "Hello {name}\n"
+            if variant != "data":
+                self.files[f"{base}/plug.py"] = "def hook(a, b=1):\n    pass\n"
+            stmt = rng.choice([f"from . import {folder}", f"from . import {folder} as data{tag}"] + ([f"from .{folder} import plug as plug{tag}"] if variant != "data" else []))
+            body.append(stmt)
+            self.meta[mod]["nsfolder"] = {"folder": folder, "variant": variant, "stmt": stmt}
+            for bound in ([f"data{tag}"] if " as data" in stmt else []) + ([f"plug{tag}"] if "plug" in stmt else []):
+                self.meta[f"{mod}.{bound}"] = {"form": "nsfolder-import"}
         all_names = None
         if rng.random() < 0.4:
             names = [n for n in exports if not n.startswith("_")]
@@ -895,13 +910,56 @@ def _alarm(signum, frame):
     raise Timeout()
 
 
-def load_both(pkg, root):
+def walker_extension():
+    """A passive extension: from the module / class node hooks it walks the tree it is handed with the documented helpers
+    (Extension.generic_visit / generic_inspect, recursing through visit_* / inspect_* methods) and only counts what it sees."""
+    import griffe
+
+    class Walker(griffe.Extension):
+        def __init__(self):
+            self.seen = 0
+
+        def _walk(self, node):
+            if isinstance(node, ast.AST):
+                self.generic_visit(node)
+            else:
+                self.generic_inspect(node)
+
+        def on_module_node(self, *, node, agent, **kwargs):
+            self._walk(node)
+
+        def on_class_node(self, *, node, agent, **kwargs):
+            self._walk(node)
+
+        def visit_classdef(self, node):
+            self.seen += 1
+            self.generic_visit(node)
+
+        def visit_functiondef(self, node):
+            self.seen += 1
+
+        def inspect_class(self, node):
+            self.seen += 1
+            self.generic_inspect(node)
+
+        def inspect_function(self, node):
+            self.seen += 1
+
+        def inspect_method(self, node):
+            self.seen += 1
+
+    return Walker()
+
+
+def load_both(pkg, root, walking=False):
+    """The package loaded statically and dynamically; walking=True: each load with a fresh passive walking extension."""
     import griffe
     signal.signal(signal.SIGALRM, _alarm)
     signal.alarm(60)
     try:
-        st = griffe.load(pkg, search_paths=[str(root)], allow_inspection=False)
-        dy = griffe.load(pkg, search_paths=[str(root)], force_inspection=True)
+        ext = (lambda: {"extensions": griffe.load_extensions(walker_extension())}) if walking else dict
+        st = griffe.load(pkg, search_paths=[str(root)], allow_inspection=False, **ext())
+        dy = griffe.load(pkg, search_paths=[str(root)], force_inspection=True, **ext())
     finally:
         signal.alarm(0)
     return st, dy
@@ -1697,6 +1755,9 @@ def run_packages(ctx, n, label):
         ctx.observe("twin", f"twin={int(gen.twin)} twin_module={int(gen.twin_module)}")
         ctx.observe("shadow_modules", len([m for m in gen.meta.values() if m.get("external")]) // 2)
         ctx.observe("unresolvable_annotations", min(gen.n_annotated, 5))
+        for m in gen.meta.values():
+            if m.get("nsfolder"):
+                ctx.observe("init_less_folder", f"{m['nsfolder']['variant']} / {m['nsfolder']['stmt'].split(' import ')[0].split()[-1][:1]} {'as' if ' as ' in m['nsfolder']['stmt'] else 'plain'}")
         try:
             try:
                 st, dy = load_both(pkg, root)
@@ -1728,6 +1789,20 @@ def run_packages(ctx, n, label):
                 fid = classify(d, gen, ctx, b)
                 ctx.observe("difference", f"{d[1]}:{fid or 'UNEXPLAINED'}")
                 ctx.property_failure({"files": gen.files, "pkg": pkg, "member": d[0]}, {"what": d[1], "static": d[2], "dynamic": d[3]}, finding=fid)
+            if i % 3 == 0:
+                # agreement must not depend on a passive extension being present: same trees with a walking extension on both agents
+                try:
+                    st2, dy2 = load_both(pkg, root, walking=True)
+                    for side, plain, walked in (("static", a, summarize_root(st2)), ("dynamic", b, summarize_root(dy2))):
+                        ctx.count("walking_extension_loads")
+                        if plain != walked:
+                            wd = []
+                            compare_trees(plain, walked, pkg, plain, wd)
+                            first = wd[0] if wd else (pkg, "tree", None, None, {})
+                            ctx.property_failure({"files": gen.files, "pkg": pkg, "member": first[0], "extension": "passive walker (generic_visit / generic_inspect from on_module_node, on_class_node)"},
+                                                 {"what": f"{side}-tree-changes-with-a-passive-extension:{first[1]}", "without": first[2], "with": first[3]})
+                except Exception as e:  # noqa: BLE001
+                    ctx.property_failure({"files": gen.files, "pkg": pkg, "extension": "passive walker"}, {"load with a passive extension raised": f"{type(e).__name__}: {e}"})
             if ctx.driver is not None:
                 check_package(ctx, gen, root, st, dy, a, b)
         finally:
